@@ -23,7 +23,7 @@ SEQ_CPU_BUDGET = 2.0       # seconds of CPU for one call sequence on an input of
 RSS_BUDGET_KB = 256 * 1024  # + 4 x (input + legitimately declared output), which is < 1 MiB for this corpus
 RULE = ("inputs: (a) corpus archives damaged (bit flips, truncations, overwrites, inserts/deletes, splices); (b) structure-aware mutation of the "
         "reference writer's header token stream (every NUMBER replaced by each of {0,1,2,0x7f,0x80,0xff,0xffff,2^31,2^32,2^63,2^64-1}, property-id "
-        "bytes replaced, header ranges deleted/duplicated) and hostile coder properties for every codec, all CRCs re-sealed so the parser is "
+        "bytes replaced, single-bit flips and 00/ff in the leading/last bytes of every raw blob (method ids, coder properties, vectors, names), header ranges deleted/duplicated) and hostile coder properties for every codec, all CRCs re-sealed so the parser is "
         "entered; (c) wrong/missing passwords; plus the intact corpus. x call sequences of length <= 4 over {getnames, list, test, testzip, "
         "extractall, extract(T), reset} incl. extract twice without reset. Monitors per sequence: CPU time <= %.1fs (ITIMER_PROF, process CPU), "
         "VmHWM rise <= %d MiB, only Exception subclasses escape, worker exit status. (d) histories in one interpreter: one input x one sequence "
@@ -54,7 +54,8 @@ HOSTILE_PROPS = [
     ("030401", ["0000000000", "ffffffffff", "0600000000", "06ffffffff", "4000001000", "02", "", "08000000010000"]),  # PPMd order/mem
     ("04f71101", ["ffff00", "0105030000", "000000", "01", "", "0105ff"]),                                       # zstd version/level
     ("04f71102", ["ffff0b", "010000", "", "01000b00"]),                                                          # brotli
-    ("06f10701", ["", "00", "3f", "18", "1f", "d3ff" + "00" * 32, "ff" + "ff" + "00" * 32, "c0", "40", "7f00", "bf" + "ff" + "11" * 31, "d8" + "0f" + "00" * 16]),  # 7zAES cycles/salt/iv
+    ("06f10701", ["", "00", "3f", "18", "1f", "d3ff" + "00" * 32, "ff" + "ff" + "00" * 32, "c0", "40", "7f00", "bf" + "ff" + "11" * 31, "d8" + "0f" + "00" * 16,
+                  "590011", "5e0011", "7e0011", "99" + "00" + "22", "de" + "00" + "3344", "7e" + "0f" + "55" * 16]),  # 7zAES cycles (25, 30, 62 with well-formed salt/iv)/salt/iv
     ("040202", ["00"]), ("040108", ["00"]), ("040109", ["00"]), ("00", ["00"]),
 ]
 
@@ -122,6 +123,18 @@ def cases(rng, tier):
         if tier == "quick":
             rng.shuffle(muts)
             muts = muts[:500]
+        # raw blobs (method ids, coder properties, bit vectors, names): single-bit flips and 00/ff in the first three and the last byte
+        rmuts = []
+        for i, (k, v) in enumerate(toks):
+            if k == "r" and 0 < len(v) <= 64:
+                for pos in sorted({0, 1, 2, len(v) - 1} & set(range(len(v)))):
+                    for nv in [v[pos] ^ (1 << b) for b in range(8)] + [0x00, 0xFF]:
+                        if nv != v[pos]:
+                            rmuts.append(["r", i, pos, nv])
+        if tier == "quick":
+            rng.shuffle(rmuts)
+            rmuts = rmuts[:150]
+        muts += rmuts
         for i in range(0, len(muts), 12):
             out.append({"fam": "struct", "layout": li, "muts": muts[i : i + 12], "seqs": _seqs(rng, nseq), "open": "stream"})
         rawlen = len(W.emit_tokens(toks))
@@ -463,13 +476,18 @@ def run_case(case):
         lay = BASE_LAYOUTS[case["layout"]]
         mem = _base_members()
         for m in case["muts"]:
-            if m[0] in ("n", "b"):
+            if m[0] in ("n", "b", "r"):
                 def hook(t, m=m):
                     t = list(t)
-                    t[m[1]] = (t[m[1]][0], m[2])
+                    if m[0] == "r":
+                        blob = bytearray(t[m[1]][1])
+                        blob[m[2]] = m[3]
+                        t[m[1]] = ("r", bytes(blob))
+                    else:
+                        t[m[1]] = (t[m[1]][0], m[2])
                     return t
                 data = W.build(mem, lay, password="pw", rng=random.Random(1), token_hook=hook)
-                cls = "number=%s" % ("0" if m[2] == 0 else "small" if m[2] < 256 else "huge") if m[0] == "n" else "idbyte"
+                cls = "blob-byte" if m[0] == "r" else "number=%s" % ("0" if m[2] == 0 else "small" if m[2] < 256 else "huge") if m[0] == "n" else "idbyte"
             else:
                 def bhook(b, m=m):
                     if m[0] == "hdr-delete":
